@@ -553,7 +553,15 @@ func (v *fnVC) applyModifies(con *Contract, env *Env) {
 			sort.Strings(ks)
 			for _, k := range ks {
 				tt := t
-				items = append(items, item{k, func(a T) T { return app("inTree", tt, app("root", a)) }})
+				// the callee's tree(t) is the tree at the time of the call. For a root that existed when the caller
+				// started it is taken to be the caller's entry-state tree of t (assumption, stated in the evidence: the
+				// caller does not link objects it allocated under a pre-existing subtree that it later hands to a
+				// tree-modifying callee). For a root the caller allocated itself, inTree (an entry-state notion) is
+				// empty, and the callee may write any object allocated since the caller started.
+				a0 := v.mem0(allocMem)
+				items = append(items, item{k, func(a T) T {
+					return or(app("inTree", tt, app("root", a)), and(not(eq(tt, "0")), not(sel(a0, tt)), not(sel(a0, app("root", a)))))
+				}})
 			}
 			continue
 		}
